@@ -648,7 +648,11 @@ where
                         let _open_files_guard = RLIMIT_OPEN_FILES.clone().access_owned();
                         let old_hash = fg[0].file_hash.clone();
                         if let Some(hash) = hash_fn((&mut fg[0].file_info, old_hash)) {
+                            // The hash function may update the length (transform);
+                            // all paths of the same file must get the same length.
+                            let len = fg[0].file_info.len;
                             for mut f in fg {
+                                f.file_info.len = len;
                                 f.file_hash = hash.clone();
                                 tx.send(f).unwrap();
                             }
